@@ -5,8 +5,9 @@ EXTENDS AuthFail
 Trace == ndJsonDeserialize("trace.ndjson")
 VARIABLES l, bad
 
-HostChars == <<"a", ".", "l", "o", "c", "a", "l">>
-BaseOf(p) == HostChars \o <<"#">> \o p
+(* the hostname of the Ingress and its server-alias: the documentation makes the alias another name of the same host *)
+HostNames == {<<"a", ".", "l", "o", "c", "a", "l">>, <<"b", ".", "l", "o", "c", "a", "l">>}
+BaseOf(hc, p) == hc \o <<"#">> \o p
 
 FileOf(s) == [method |-> s.method, lower |-> s.lower,
               entries |-> [j \in 1..Len(s.entries) |-> [k |-> SeqT(s.entries[j].k), v |-> s.entries[j].v]]]
@@ -25,14 +26,14 @@ Protected(e, id) == \E i \in 1..Len(e.rules) : e.rules[i].id = id /\ e.rules[i].
 Judge(e) ==
     UNION {
         LET p == SeqT(e.reqs[k])
-            b == BaseOf(p)
+            b == BaseOf(hc, p)
             win == Longest(RulesOf(e), "a.local", p)
             mustGuard == win # {} /\ \A r \in win : Protected(e, r.id)
             pid == PathIDOf(e.backend.pathid, 1, NoHit, b)
             ok == Guarded(e.front, NoHit, b, p) \/ Guarded(e.backend.auth, pid, b, p)
         IN IF mustGuard => ok THEN {}
-           ELSE {[id |-> e.id, inv |-> "FailClosed", path |-> p, cs |-> e.cs]}
-        : k \in 1..Len(e.reqs)}
+           ELSE {[id |-> e.id, inv |-> "FailClosed", path |-> p, cs |-> e.cs, alias |-> hc[1] = "b"]}
+        : k \in 1..Len(e.reqs), hc \in HostNames}
 
 TraceNext == /\ l <= Len(Trace) /\ l' = l + 1 /\ bad' = bad \cup Judge(Trace[l]) /\ UNCHANGED cs
 TraceInit == cs = [url |-> "none", oauth |-> "none", placement |-> "backend", ptype |-> "exact", lua |-> TRUE, range |-> "default", open |-> "after", cors |-> FALSE, pubauth |-> FALSE] /\ l = 1 /\ bad = {}
